@@ -28,6 +28,8 @@ STR_PIECES = [
     "a", "Z9", " ", "x y", "hello", "-", "#", "%", "{}", "//", "/*", "$", "@",
     "\\n", "\\t", "\\r", "\\\\", "\\\"", "\\'", "\\b", "\\x41", "\\x7f", "\\u00e9", "\\u20ac",
     "\\U0001F600", "\\101", "\\000", "\\\\n", "\\\\\\\"",
+    # every control character, through the escape forms the lexer knows (a printer must give back a form it reads)
+    "\\x07", "\\x0b", "\\x0c", "\\x08", "\\x1b", "\\x00", "\\x01", "\\x1f", "\\007", "\\013", "\\014", "\\u0085", "\\u2028",
     "é", "ß", "→", "😀", "日本", "\u00a0", "\ufffd", "'", "\t",
 ]
 
